@@ -61,7 +61,7 @@ type EventBus struct {
 	afterPublish     PublishHook
 	beforePublishCtx PublishHookContext
 	afterPublishCtx  PublishHookContext
-	wg               sync.WaitGroup
+	wg               asyncTracker
 
 	// Optional persistence fields (nil if not using persistence)
 	store                   EventStore
@@ -497,6 +497,46 @@ func HandlerCount[T any](bus *EventBus) int {
 // Wait blocks until all async handlers complete
 func (bus *EventBus) Wait() {
 	bus.wg.Wait()
+}
+
+// asyncTracker counts the asynchronous handler invocations in flight. It has
+// the Add/Done/Wait shape of sync.WaitGroup, but unlike a WaitGroup it may be
+// waited on while other goroutines keep publishing: a sync.WaitGroup panics
+// ("WaitGroup is reused before previous Wait has returned") when the counter
+// leaves zero again before a woken Wait has returned, which is exactly what a
+// Wait or a timed-out Shutdown concurrent with publishers runs into.
+type asyncTracker struct {
+	mu      sync.Mutex
+	n       int
+	drained chan struct{} // closed when n drops back to zero; nil while nothing has been tracked
+}
+
+func (t *asyncTracker) Add(delta int) {
+	t.mu.Lock()
+	if t.n == 0 && delta > 0 {
+		t.drained = make(chan struct{})
+	}
+	t.n += delta
+	if t.n < 0 {
+		t.mu.Unlock()
+		panic("eventbus: negative async handler count")
+	}
+	if t.n == 0 && t.drained != nil {
+		close(t.drained)
+		t.drained = nil
+	}
+	t.mu.Unlock()
+}
+
+func (t *asyncTracker) Done() { t.Add(-1) }
+
+func (t *asyncTracker) Wait() {
+	t.mu.Lock()
+	drained := t.drained
+	t.mu.Unlock()
+	if drained != nil {
+		<-drained
+	}
 }
 
 // callHandlerWithContext calls a handler with proper type checking and panic recovery
